@@ -146,6 +146,48 @@ def api_case(case):
     return {'p': pp, 't': tp, 'scope': [], 'filter': 0, 'maps': maps, 'sub': 9, 'lt': 9, 'le': 9, 'eq': 9}
 
 
+def smarts_of_shape(smi):
+    """SMILES-shaped text -> SMARTS with the same marks: primitives go after the element ([C@H] -> [C;@;h1])"""
+    import re
+
+    def rep(m):
+        mm = re.match(r'(\d*)([A-Za-z][a-z]?)(@@|@)?(H\d?)?(.*)', m.group(1))
+        iso, sym, ch, h, rest = mm.groups()
+        parts = [iso + sym]
+        if ch:
+            parts.append(ch)
+        if h:
+            parts.append('h' + (h[1:] or '1'))
+        return '[' + ';'.join(parts) + rest + ']'
+    return re.sub(r'\[([^\]]+)\]', rep, smi)
+
+
+def stereo_case(case):
+    from chython import smiles, smarts
+    rnd = random.Random(case['rs'])
+    try:
+        t = smiles(case['t'])
+        if case.get('renumber'):
+            t, _ = chy.renumbered(t, rnd) if False else (t, None)
+            nums = list(t._atoms)
+            new = nums[:]
+            rnd.shuffle(new)
+            t.remap({n: n + 1000 for n in nums})
+            t.remap({n + 1000: k for n, k in zip(nums, new)})
+        q = smarts(smarts_of_shape(case['shape']))
+    except Exception as e:
+        return {'skip': type(e).__name__}
+    order = list(q._atoms)
+    pp, pidx = qproj.pattern_of_query(q, order)
+    for a in pp['atoms']:
+        a['st'] = 0      # the unmarked pattern: what the marks mean is the specification's business
+    tp, tidx = qproj.target_of(t)
+    tp['par'] = [chy.parity(t, n, tidx) for n in t._atoms]
+    tp['ct'] = chy.cistrans(t, tidx)
+    maps = [[tidx[mp[n]] for n in order] for mp in q.get_mapping(t, automorphism_filter=False)]
+    return {'sp': list(case['shape']), 'p': pp, 't': tp, 'maps': maps}
+
+
 def run(ck):
     rnd = random.Random(ck.seed)
     bl = bodies(rnd, ck.quick)
@@ -185,6 +227,30 @@ def run(ck):
         ck.validate('matching', 'Trace_C07', [c for c, _ in keep], [r for _, r in keep])
         ck.count('query-target-pairs', len(keep))
         ck.count('atom-matches', sum(len(r['maps']) for _, r in keep))
+    # stereo marks of queries
+    shapes = ['F[C@](Cl)(Br)I', '[C@](F)(Cl)(Br)I', 'F[C@@](Cl)(Br)I', 'I[C@](F)(Cl)Br', 'F[C@H](Cl)Br', '[C@H](F)(Cl)Br', 'F[C@@H](Cl)Br', 'Cl[C@H](F)Br', 'F[C@](Cl)Br', '[C@](F)(Cl)Br', 'Br[C@@](F)Cl',
+              'C[C@H](N)O', 'N[C@@H](C)C(=O)O', 'C[C@](N)(O)C', 'F/C=C/Cl', 'F/C=C\\Cl', 'F/C(Cl)=C/Br', 'Cl/C=C/C', 'C/C=C\\C', 'C/C=C/C', 'C(/F)=C/Cl', 'F\\C=C/Cl', 'C[C@H](O)/C=C/C', 'N[C@@H](C)C',
+              'C[C@@H]1CCCO1', 'O[C@H]1CC[C@@H](O)CC1'.replace('[C@@H](O)', 'C(O)')]
+    stargets = ['F[C@H](Cl)Br', 'F[C@@H](Cl)Br', 'F[C@](Cl)(Br)I', 'F[C@@](Cl)(Br)I', 'F[C@](Cl)(Br)C', 'F[C@@](Cl)(Br)C', 'I[C@](F)(Cl)Br', 'F/C=C/Cl', 'F/C=C\\Cl', 'F/C(Cl)=C/Br', 'F/C(Cl)=C\\Br', 'FC(Cl)Br',
+                'C[C@H](N)O', 'C[C@@H](N)O', 'N[C@@H](C)C(=O)O', 'N[C@H](C)C(=O)O', 'C[C@](N)(O)CC', 'C[C@@](N)(O)CC', 'C/C=C\\C', 'C/C=C/C', 'CC=CC', 'C[C@H](O)/C=C/C', 'C[C@H](O)/C=C\\C', 'C[C@@H](O)/C=C/C',
+                'C[C@@H]1CCCO1', 'C[C@H]1CCCO1', 'O[C@H]1CCC(O)CC1', 'Cl/C=C/C', 'Cl/C=C\\C', 'N[C@@H](C)CC', '[2H][C@](F)(Cl)Br', 'F[C@]([H])(Cl)Br']
+    stereo_corp = [x for x in corp if ('@' in x or '/' in x) and len(x) < 50]
+    sq = []
+    for sh in shapes:
+        for k, t in enumerate(stargets + chy.pick(stereo_corp, 6 if ck.quick else 60, ck.seed, 11)):
+            for ren in (False, True):
+                sq.append({'key': f'stereo|{sh}|{t}|{int(ren)}', 'shape': sh, 't': t, 'renumber': ren, 'rs': rnd.randrange(1 << 30)})
+    sq = ck.select('stereo-queries', sq)
+    if sq:
+        res = vlib.pmap('checks.c08', 'stereo_case', sq)
+        for r in res:
+            if '_observer_error' in r:
+                raise vlib.Machinery(r['_observer_error'] + r['_tb'])
+        keep = [(c, r) for c, r in zip(sq, res) if 'skip' not in r]
+        out = ck.validate('stereo-queries', 'Trace_StereoQuery', [c for c, _ in keep], [r for _, r in keep])
+        if 'MACHINERY' in out['out']:
+            raise vlib.Machinery('a SMILES-shaped pattern text is not readable by the reference reader')
+        ck.count('stereo-query-matches', sum(len(r['maps']) for _, r in keep))
     # queries built through the API (scalars, lists, setters): the requested attributes are the specification
     ac = []
     apit = ['C', 'CC', 'CO', 'CC(C)(C)C', 'CC(=O)O', '[Na+].[Cl-]', 'O', 'N#N', 'FC(F)(F)F', 'CS(C)(=O)=O', 'OCCN', 'C=CC#N', 'ClCCl', 'CNC', '[NH4+].[OH-]']
